@@ -91,11 +91,26 @@ def sym(E, p, kf):
     return r
 
 
-def _strip(g):
-    # the decoded content is what is compared with a concrete run (events/values are judged by the solver-side invariants)
+def _strip(g, canonical=True):
+    # the decoded content is what is compared with a concrete run; the canonical-form verdict on events/values is carried as one flag
+    # (judged by the solver-side invariants on the symbolic side, recomputed from the real events/values at replay)
     if g["k"] == "tuple":
-        return dict(k="tuple", items=g["items"][:2])
+        return dict(k="tuple", items=g["items"][:2] + [dict(k="scalar", val=canonical, dtype="py")])
     return g
+
+
+def _canonical_concrete(g, need_distinct):
+    """canonical-form check on a concrete decode() observation: events 0 = e0 < e1 < ... = len, (adjacent values differ)"""
+    if g["k"] != "tuple" or len(g["items"]) < 4:
+        return True
+    dense, ev, vv = g["items"][1], g["items"][2]["flat"], g["items"][3]["flat"]
+    n = dense["shape"][0]
+    if n == 0:
+        return True
+    ok = len(ev) == len(vv) + 1 and ev[0] == 0 and ev[-1] == n and all(a < b for a, b in zip(ev, ev[1:]))
+    if need_distinct:
+        ok = ok and all(a != b for a, b in zip(vv, vv[1:]))
+    return bool(ok)
 
 
 def _sym2(E, p, c, got, n, vals, V):
@@ -170,7 +185,8 @@ def conc(case):
     got = outcome(lambda: run(c, p))
     A = common.ref_array
 
-    strip = _strip
+    need_distinct = (ix == "slice" and c.get("s") not in (1, None, -1)) or ix == "ellipsis"
+    strip = lambda g: _strip(g, _canonical_concrete(g, need_distinct))
     if ix == "int":
         i = c["i"]
         if not -n <= i < n:
@@ -193,7 +209,7 @@ def conc(case):
         exp = A(vals, [n], "int64")
     g = strip(got)
     tagv = g["items"][0] if g["k"] == "tuple" else None
-    return g, dict(k="tuple", items=[tagv if tagv is not None else dict(k="any"), exp])
+    return g, dict(k="tuple", items=[tagv if tagv is not None else dict(k="any"), exp, dict(k="scalar", val=True, dtype="py")])
 
 
 def jobs(tier, seed):
